@@ -821,11 +821,12 @@ Definition sort_uniq (l : list text) : list text := fold_right insert_uniq [] l.
 (* tokens.py:465 use_leaves.  parse walks the comma-separated parts of one brace level with a small state:
    scanning the path (segments reversed; first = nothing of the part seen yet), just after `as`, or done
    (python breaks out of the part at a sub-group or after the alias). *)
+Definition uentry : Type := list text * option text.        (* path segments ([] = the leading `::`), alias *)
 Inductive pstate :=
 | PScan (segs : list text) (first : bool)
 | PAlias (segs : list text)
-| PDone (leaves : list text).
-Definition leaf (prefix segs : list text) (alias : option text) : list text :=
+| PDone (leaves : list uentry).
+Definition leaf (prefix segs : list text) (alias : option text) : list uentry :=
   let path := prefix ++ rev segs in
   let path := match rev path with
               | l :: _ :: _ => if eqb_text l s_self then removelast path else path
@@ -838,21 +839,24 @@ Definition leaf (prefix segs : list text) (alias : option text) : list text :=
                    | Some a => if eqb_text a l then None else alias
                    | None => None
                    end in
-      [join s_coloncolon path ++ match alias with
-                                 | Some (c :: a) => s_sp_as_sp ++ c :: a
-                                 | _ => []
-                                 end]
+      [(path, alias)]
   end.
-Definition pfinish (prefix : list text) (st : pstate) : list text :=
+(* the string of a leaf: segments joined by `::`, then ` as alias` unless the alias is missing or empty *)
+Definition render_leaf (e : uentry) : text :=
+  join s_coloncolon (fst e) ++ match snd e with
+                               | Some (c :: a) => s_sp_as_sp ++ c :: a
+                               | _ => []
+                               end.
+Definition pfinish (prefix : list text) (st : pstate) : list uentry :=
   match st with
   | PScan segs first => if first then [] else leaf prefix segs None
   | PAlias segs => leaf prefix segs None
   | PDone ls => ls
   end.
 Section ParseLoop.
-Variable rec : list text -> item -> list text.       (* rec prefix g = parse(g.items, prefix) *)
+Variable rec : list text -> item -> list uentry.     (* rec prefix g = parse(g.items, prefix) *)
 Variable drop_root : bool.
-Fixpoint parse_loop (prefix : list text) (st : pstate) (ts : list item) : list text :=
+Fixpoint parse_loop (prefix : list text) (st : pstate) (ts : list item) : list uentry :=
   match ts with
   | [] => pfinish prefix st
   | t :: ts' =>
@@ -875,13 +879,15 @@ Fixpoint parse_loop (prefix : list text) (st : pstate) (ts : list item) : list t
       end
   end.
 End ParseLoop.
-Fixpoint parse_grp (drop_root : bool) (prefix : list text) (x : item) {struct x} : list text :=
+Fixpoint parse_grp (drop_root : bool) (prefix : list text) (x : item) {struct x} : list uentry :=
   match x with
   | Grp _ sub => parse_loop (parse_grp drop_root) drop_root prefix (PScan [] true) sub
   | Tok _ => []
   end.
-Definition parse_use (drop_root : bool) (items : list item) : list text :=
+Definition parse_entries (drop_root : bool) (items : list item) : list uentry :=
   parse_loop (parse_grp drop_root) drop_root [] (PScan [] true) items.
+Definition parse_use (drop_root : bool) (items : list item) : list text :=
+  map render_leaf (parse_entries drop_root items).
 Definition use_leaves (drop_root : bool) (items : list item) : list text :=
   sort_uniq (parse_use drop_root items).
 
@@ -1081,3 +1087,17 @@ Definition essential (t : text) : bool :=
 Definition ess (l : list text) : list text := filter essential (unglue l).
 (* merging derives also drops one attribute mark and one `derive` per merged attribute *)
 Definition essential_md (t : text) : bool := essential t && negb (mem_text t [s_hash; s_derive]).
+
+(* l1 is a subsequence of l2 (same order, l2 may have more) *)
+Inductive Sub {A : Type} : list A -> list A -> Prop :=
+| Sub_nil : Sub [] []
+| Sub_keep x l1 l2 : Sub l1 l2 -> Sub (x :: l1) (x :: l2)
+| Sub_skip x l1 l2 : Sub l1 l2 -> Sub l1 (x :: l2).
+(* a statement that reorder_runs leaves in place *)
+Definition nonrun (st : list item) : bool :=
+  match stmt_kind st with None => true | Some _ => false end.
+Definition ess_md (l : list text) : list text := filter essential_md (unglue l).
+(* the pipeline with reorder_runs switched off, merge_derives as configured *)
+Definition norm_noreorder (o : opts) (ts : list tok) : list text :=
+  let t := norm_core_items o ts in
+  flatten (if o_merge_derives o then merge_derives t else t).
